@@ -28,6 +28,8 @@ P = {
          "Untaint precedes and gates the cloud request, which is exactly N − untainted ≥ 1; newest-first over all tainted nodes; no stale cached desired capacity is read for a decision within one scan.", "§4 C07"),
  "C08": ("other", "comparator normal form + collect-loop / sort-dominates-loop / bounded-accumulator recognisers",
          "The taint loop visits a complete oldest-first sorted copy of the untainted list in order and skips a node only when its write failed (modulo sort.Sort).", "§4 C08"),
+ "C12": ("other", "wiring checks on canonical terms (same loop element for name/state/listers/cloud lookup) + store census over the scan-reachable call graph + loop-exit path conditions",
+         "State partition and wiring: nothing reachable from a group's scan writes shared state; every lookup, lister and cloud group is keyed by the group's own options; only the two documented conditions leave the group loop.", "§4 C12"),
  "C13": ("other", "unit (dimension) analysis of every store into Resource fields and constructor arguments + dominance-ordered composition phases + commutative-fold recogniser + rational-function normal form of the percent formula",
          "Units, per-pod composition order, commutative totals over full range loops and the percent formula are the documented ones; Quantity arithmetic and float rounding are not decided.", "§4 C13"),
  "C14": ("other", "return-site path conditions of each filter compared with the documented predicate (truth-table equivalence / atom classification) + existential-search and full-traversal loop recognisers",
